@@ -83,3 +83,9 @@ func init() {
 		Rule:        "deviation-bounded enumeration of training histories on the real components: models FC(D->O) -> {none, Relu, LeakyRelu(0.01|0.3), Sigmoid, Tanh, Softmax(1)} -> {Flatten+MSE, Flatten+BCE, CE} with B,D,O in 1..2 (thorough 1..3), learning rate {nil config, 0.1, 0, -0.05}, two generic initialisations through a custom initializer and one seeded default initialisation, 3 (4) steps; histories with 0 and with exactly 1 deviation from the default step, for every step and weight: reset omitted, ResetGradContext(false), Update twice, Update skipped. Oracle after every step: loss value and every weight equal the model trajectory w <- w - lr*dLoss/dw (analytic composite model), shapes kept, after the reset the hook shows a fresh leaf (no gradient, no edges, not spent); an omitted reset makes the next Update return an error and replace nothing; ResetGradContext(false) freezes that weight (Update errors) while the other follows gradient descent. The trajectory under the mean-model of the listed finding broadcast_avg is accepted only as KNOWN-FINDING and only if every step matches it. Non-trivial: a deviation or batch > 1.",
 		Assumptions: []string{"analytic composite model validated against finite differences (selftest)", "back-propagating twice through the same graph is outside the specified behaviour (C08 precondition a) and not generated", "bounded dimensions, 3-4 steps, at most one deviation per history"}})
 }
+
+func init() {
+	register(&Check{ID: "C20", Fn: checkC20, Post: c20Post, Procs: 1,
+		Rule:        "stateless model checking under a hand-written cooperative scheduler: for every unordered pair (thorough: plus selected triples) of 10 thread bodies (element-wise/broadcast ops, MatMul/Transpose/Dot, reductions, Slice/Patch/Concat/Broadcast, FC->Sigmoid->BCE, FC->Softmax->CE, two private build-and-back-propagate graphs sharing only an untracked tensor, graph construction on the shared tracked parameter, RandU/RandN/initializer) over shared 2x2 tensors, ALL schedules up to the largest preemption bound <= 2 (thorough 3) whose schedule count fits the per-scenario budget are executed on the real code (bound per scenario reported in coverage.outcomes; at least bound 1 everywhere); scheduling points before every API call and at six interior hook sites (per generated/computed/copied/reduced element, per backward rule). Oracle per execution: every thread's results (values, shape, flags, gradients) equal those of the same body run alone; the private state of every shared tensor equals its initial inspection; no random draw is handed out twice; the first schedule is executed twice and must be identical (determinism). PLUS a separate free-running pass of the same bodies (3 goroutines per pair, 20 repetitions, thorough 100) in a -race build with no scheduler and no hook handler; any race report is a violation. states = schedules executed, transitions = scheduling decisions. Each scenario is non-trivial (threads share tensors).",
+		Assumptions: []string{"cooperative scheduler sees interleavings at the hooked points under sequential consistency; unsynchronised accesses between points are the race pass's job", "2-3 goroutines, bodies of <= 4 calls, 2x2 tensors, preemption bound 2 (3)"}})
+}
